@@ -97,12 +97,12 @@ fn run(prop: &str, tier: &str, seed: u64) -> i32 {
         "C07" => {
             let (mut chk, agg) = m_search::run_c07(tier, seed);
             chk.rule.push_str(" || UCI level: `go infinite`/`go depth 6` followed at once by `stop` with the search-thread start delayed (so the stop precedes the first poll) and `go movetime 0..5`: the bestmove must be a legal move, never `none`.");
-            with_part(chk, agg, "C07uci", tier, seed, &[("UCI-level go commands judged", "uci_gos_judged", 200)])
+            with_part(chk, agg, "C07uci", tier, seed, &[("UCI-level go commands judged", "uci_gos_judged", 200), ("bestmoves of exchanges written in one piece judged", "bulk_bestmoves_judged", 400)])
         }
         "C08" => {
             let (mut chk, agg) = m_search::run_c08(tier, seed);
-            chk.rule.push_str(" || UCI level: `go depth N` combined with a time budget (movetime / clocks, either order) and after deeper searches of the same position, on the release and debug-assertions binaries; decided on the `info depth` lines of each go.");
-            with_part(chk, agg, "C08uci", tier, seed, &[("UCI-level depth-limited go commands judged", "uci_limited_gos_judged", 200), ("of which combined with a time budget", "uci_limited_gos_with_a_time_budget", 80), ("UCI sessions on locked tiny positions (depth 50/64/255/infinite)", "uci_locked_tiny_sessions", 8)])
+            chk.rule.push_str(" || UCI level: `go depth N` combined with a time budget (movetime / clocks, either order) and after deeper searches of the same position, on the release and debug-assertions binaries; decided on the `info depth` lines of each go. Table just reset by one or more `ucinewgame`, then `go depth 1-5` on roots without a legal move, with a single reply, and ordinary ones: every go must be answered.");
+            with_part(chk, agg, "C08uci", tier, seed, &[("UCI-level depth-limited go commands judged", "uci_limited_gos_judged", 200), ("of which combined with a time budget", "uci_limited_gos_with_a_time_budget", 80), ("UCI sessions on locked tiny positions (depth 50/64/255/infinite)", "uci_locked_tiny_sessions", 8), ("go commands on a table that has just been reset", "uci_gos_after_a_table_reset", 200)])
         }
         "C09" => m_search::run_c09(tier, seed),
         "C10" => {
@@ -170,6 +170,7 @@ fn replay(prop: &str, case: &Value, out: &mut par::Out) {
         ("C15", _) => m_mem::replay(case, out),
         ("C17", _) => m_text::replay(case, out),
         ("C19", _) => m_uci::replay_c19(case, out),
+        ("C07", "bulk-session") => m_uci::replay_c07_bulk(case, out),
         ("C06" | "C07" | "C10" | "C18", "session") => m_uci::replay_ucisample(prop, case, out),
         ("C08", "session") => m_uci::replay_session(prop, case, out),
         ("C20", "show") => m_uci::replay_c20show(case, out),
@@ -257,6 +258,7 @@ fn replay(prop: &str, case: &Value, out: &mut par::Out) {
         ("C13", _) => m_uci::replay_c13(case, out),
         ("C19", _) => m_uci::replay_c19(case, out),
         ("C20", "show") => m_uci::replay_c20show(case, out),
+        ("C07", "bulk-session") => m_uci::replay_c07_bulk(case, out),
         ("C06" | "C07" | "C10" | "C18", "session") => m_uci::replay_ucisample(prop, case, out),
         ("C08", "session") => m_uci::replay_session(prop, case, out),
         _ => println!("this witness needs the in-process harness, which does not build against the current engine sources"),
